@@ -7,24 +7,84 @@ fn show_pairs(a: &Array<Tuple2<i64, i64>>) -> String {
     format!("{}:{}", show_list(&a.get_shape().unwrap()), if items.is_empty() { "-".to_string() } else { items.join(",") })
 }
 
-/// can `s` be stretched to `t` (trailing alignment; every source axis equal or 1; no zero lengths)?
+/// can `s` be stretched to `t`? Same rule as the Lean `stretchable`: trailing alignment; every source axis equals the
+/// aligned target axis or is 1; no zero length on an ALIGNED axis; the added leading target axes are unconstrained
+/// (a zero-length one gives an empty result).
 fn stretchable(s: &[usize], t: &[usize]) -> bool {
-    if s.len() > t.len() || s.iter().chain(t.iter()).any(|&d| d == 0) { return false; }
+    if s.len() > t.len() { return false; }
     let off = t.len() - s.len();
-    s.iter().zip(&t[off..]).all(|(&f, &to)| f == to || f == 1)
+    s.iter().zip(&t[off..]).all(|(&f, &to)| (f == to || f == 1) && f != 0 && to != 0)
+}
+
+// ---- observing the crate-internal helpers broadcast_h2 / broadcast_h3 through public pure lifts over them ----
+// `multiply(counts)` = broadcast_h2 then `s.repeat(n)` position by position; `ljust(width, fill)` = broadcast_h3 then
+// `s + fill * (width - len)`. With per-position-recoverable operands the result text reveals which source positions
+// were paired at every result position, i.e. the two / three stretched operands themselves.
+
+const W: usize = 4; // digits of the string operand's text
+/// string operand: element with tag v (0 <= v < 10^W) becomes the W-digit decimal text of v
+fn str_operand(a: &Array<i64>) -> Option<Array<String>> {
+    let e = a.get_elements().unwrap();
+    if e.iter().any(|&v| v < 0 || v >= 10i64.pow(W as u32)) { return None; }
+    Some(Array::new(e.iter().map(|v| format!("{:0w$}", v, w = W)).collect(), a.get_shape().unwrap()).expect("harness: string operand"))
+}
+/// count / width operand: element with tag v (base <= v < base + 5000) becomes the number v - base + add
+fn num_operand(a: &Array<i64>, base: i64, add: usize) -> Option<Array<usize>> {
+    let e = a.get_elements().unwrap();
+    if e.iter().any(|&v| v < base || v >= base + 5000) { return None; }
+    Some(Array::new(e.iter().map(|&v| (v - base) as usize + add).collect(), a.get_shape().unwrap()).expect("harness: numeric operand"))
+}
+/// fill-character operand: element with tag v (base <= v < base + 5000) becomes the character U+0100 + (v - base)
+fn char_operand(a: &Array<i64>, base: i64) -> Option<Array<char>> {
+    let e = a.get_elements().unwrap();
+    if e.iter().any(|&v| v < base || v >= base + 5000) { return None; }
+    Some(Array::new(e.iter().map(|&v| char::from_u32(0x100 + (v - base) as u32).unwrap()).collect(), a.get_shape().unwrap()).expect("harness: char operand"))
+}
+fn show_tags(shape: &[usize], tags: &[i64]) -> String { format!("{}:{}", show_list(shape), show_list(tags)) }
+
+/// `multiply` result -> the two stretched tag arrays (None: the text is not a whole number of repetitions of one tag)
+fn decode_multiply(r: &Array<String>) -> Option<String> {
+    let (shape, e) = (r.get_shape().unwrap(), r.get_elements().unwrap());
+    let (mut ta, mut tb) = (vec![], vec![]);
+    for s in &e {
+        if !s.is_ascii() || s.is_empty() || s.len() % W != 0 { return None; }
+        let first = &s[..W];
+        if (0..s.len() / W).any(|k| &s[k * W..(k + 1) * W] != first) { return None; }
+        ta.push(first.parse::<i64>().ok()?);
+        tb.push(1000 + (s.len() / W) as i64 - 1);
+    }
+    Some(format!("{};{}", show_tags(&shape, &ta), show_tags(&shape, &tb)))
+}
+/// `ljust` result -> the three stretched tag arrays
+fn decode_ljust(r: &Array<String>) -> Option<String> {
+    let (shape, e) = (r.get_shape().unwrap(), r.get_elements().unwrap());
+    let (mut ta, mut tb, mut tc) = (vec![], vec![], vec![]);
+    for s in &e {
+        let cs: Vec<char> = s.chars().collect();
+        if cs.len() < W + 1 || !cs[..W].iter().all(|c| c.is_ascii_digit()) { return None; }
+        let fill = cs[W];
+        if (fill as u32) < 0x100 || cs[W..].iter().any(|&c| c != fill) { return None; }
+        ta.push(cs[..W].iter().collect::<String>().parse::<i64>().ok()?);
+        tb.push(1000 + (cs.len() - W - 1) as i64);
+        tc.push(2000 + (fill as u32 - 0x100) as i64);
+    }
+    Some(format!("{};{};{}", show_tags(&shape, &ta), show_tags(&shape, &tb), show_tags(&shape, &tc)))
 }
 
 fn gen(tier: &str, seed: u64, out: &mut dyn FnMut(String)) {
     let thorough = tier == "thorough";
     // corpus of past failures first
     for l in ["broadcast i2,3 i1+1000", "broadcast i2,3 i3+1000", "broadcast_to i3 2,2,3", "broadcast_to i2 2,3", "broadcast_to i2,1,3 2,2,3",
-              "zip i1 i3+1000", "broadcast i2,1 i1,3+1000", "broadcast_arrays i2,1;i3+1000;i1,1,1+2000"] { out(l.to_string()); }
+              "zip i1 i3+1000", "broadcast i2,1 i1,3+1000", "broadcast_arrays i2,1;i3+1000;i1,1,1+2000",
+              "h2 i2,1 i3+1000", "h2 i3 i2,1+1000", "h3 i2,1 i3+1000 i1+2000", "h3 i1 i2,1,1+1000 i3+2000", "h2 i2 i3+1000", "h3 i2 i1+1000 i3+2000",
+              "broadcast_to i3 0,3", "broadcast_to i1 0,2", "broadcast_to i2,3 0,2,3", "broadcast_to i3 0,2", "zip i0,3 i3+1000"] { out(l.to_string()); }
     let small = shapes(1, 3, 1, 3);
     for s in &small { for t in &small {
         out(format!("broadcast {} {}", tag(s), tag_off(t, 1000)));
         out(format!("zip {} {}", tag(s), tag_off(t, 1000)));
         out(format!("broadcast_to {} {}", tag(s), show_list(t)));
         out(format!("broadcast_arrays {};{}", tag(s), tag_off(t, 1000)));
+        out(format!("h2 {} {}", tag(s), tag_off(t, 1000)));
     } }
     // targets of rank 4 for every small source
     let mut rng = Rng::new(seed);
@@ -38,11 +98,25 @@ fn gen(tier: &str, seed: u64, out: &mut dyn FnMut(String)) {
     if thorough {
         for a in &small { for b in &small { for c in &small {
             out(format!("broadcast_arrays {};{};{}", tag(a), tag_off(b, 1000), tag_off(c, 2000)));
+            out(format!("h3 {} {} {}", tag(a), tag_off(b, 1000), tag_off(c, 2000)));
         } } }
     } else {
         for _ in 0..4000 {
             let (a, b, c) = (rng.pick(&small).clone(), rng.pick(&small).clone(), rng.pick(&small).clone());
             out(format!("broadcast_arrays {};{};{}", tag(&a), tag_off(&b, 1000), tag_off(&c, 2000)));
+        }
+        // helper triples: every pair of small shapes with a sampled third operand in each of the three positions
+        for a in &small { for b in &small {
+            let c = rng.pick(&small).clone();
+            match rng.below(3) {
+                0 => out(format!("h3 {} {} {}", tag(a), tag_off(b, 1000), tag_off(&c, 2000))),
+                1 => out(format!("h3 {} {} {}", tag(a), tag_off(&c, 1000), tag_off(b, 2000))),
+                _ => out(format!("h3 {} {} {}", tag(&c), tag_off(a, 1000), tag_off(b, 2000))),
+            }
+        } }
+        for _ in 0..1500 {
+            let (a, b, c) = (rng.pick(&small).clone(), rng.pick(&small).clone(), rng.pick(&small).clone());
+            out(format!("h3 {} {} {}", tag(&a), tag_off(&b, 1000), tag_off(&c, 2000)));
         }
     }
     out("broadcast_arrays -".to_string());
@@ -58,7 +132,9 @@ fn gen(tier: &str, seed: u64, out: &mut dyn FnMut(String)) {
             s
         };
         let (s, t, u) = (derive(&mut rng), derive(&mut rng), derive(&mut rng));
-        match rng.below(4) {
+        match rng.below(6) {
+            4 => out(format!("h2 {} {}", tag(&s), tag_off(&t, 1000))),
+            5 => out(format!("h3 {} {} {}", tag(&s), tag_off(&t, 1000), tag_off(&u, 2000))),
             0 => out(format!("broadcast {} {}", tag(&s), tag_off(&t, 1000))),
             1 => out(format!("zip {} {}", tag(&s), tag_off(&t, 1000))),
             2 => out(format!("broadcast_to {} {}", tag(&s), show_list(&t))),
@@ -69,6 +145,23 @@ fn gen(tier: &str, seed: u64, out: &mut dyn FnMut(String)) {
     for (s, t) in [(vec![0], vec![0]), (vec![2, 0], vec![2, 1]), (vec![0], vec![3]), (vec![1], vec![0])] {
         out(format!("broadcast {} {}", tag(&s), tag_off(&t, 1000)));
         out(format!("broadcast_to {} {}", tag(&s), show_list(&t)));
+        out(format!("h2 {} {}", tag(&s), tag_off(&t, 1000)));
+        out(format!("h3 {} {} {}", tag(&s), tag_off(&t, 1000), tag_off(&[1], 2000)));
+        out(format!("h3 {} {} {}", tag(&[2]), tag_off(&s, 1000), tag_off(&t, 2000)));
+    }
+    // zero-length ADDED LEADING target axes: accepted, empty result (`broadcastTo_stretch`, Lean `stretchable` = true)
+    for s in shapes(1, 2, 1, 3) { for lead in [vec![0], vec![0, 2], vec![2, 0], vec![0, 0]] {
+        let mut t = lead.clone(); t.extend(s.iter().map(|&d| if d == 1 { 3 } else { d }));
+        out(format!("broadcast_to {} {}", tag(&s), show_list(&t)));
+        let mut t2 = lead.clone(); t2.extend(s.iter());
+        out(format!("broadcast_to {} {}", tag(&s), show_list(&t2)));
+        out(format!("zip {} {}", tag(&t2), tag_off(&s, 1000)));
+    } }
+    // rank-0 operands of the helpers (the one-element temporary is then reshaped to the rank-0 shape)
+    for s in &small {
+        out(format!("h2 {} {}", tag(&[]), tag_off(s, 1000)));
+        out(format!("h2 {} {}", tag(s), tag_off(&[], 1000)));
+        out(format!("h3 {} {} {}", tag(s), tag_off(&[], 1000), tag_off(&[], 2000)));
     }
 }
 
@@ -97,6 +190,27 @@ fn exec(op: &str, args: &[&str], expected: &str) -> Option<Verdict> {
             let l = parse_arr_list_i64(args[0]);
             Some(compare_default(guarded(|| res_arr_list(&Array::broadcast_arrays(l.clone()))), expected))
         }
+        // broadcast_h2 observed through `multiply` (a pure lift over it): tag v of the string operand is the text of v,
+        // tag 1000+j of the count operand is the count j+1 — the result text gives back both stretched operands
+        "h2" => {
+            let (a, b) = (parse_arr_i64(args[0]), parse_arr_i64(args[1]));
+            let (sa, nb) = (str_operand(&a)?, num_operand(&b, 1000, 1)?);
+            let obs = guarded(|| match sa.multiply(&nb) {
+                Ok(r) => if !consistent(&r) { "ok <inconsistent array>".to_string() } else { decode_multiply(&r).map_or(format!("ok <undecodable {:?}>", r.get_elements().unwrap()), |t| format!("ok {}", t)) },
+                Err(e) => format!("err {}", err_name(&e)),
+            });
+            Some(compare_default(obs, expected))
+        }
+        // broadcast_h3 observed through `ljust`: width tag 1000+j is the width W+1+j, fill tag 2000+k is the character U+0100+k
+        "h3" => {
+            let (a, b, c) = (parse_arr_i64(args[0]), parse_arr_i64(args[1]), parse_arr_i64(args[2]));
+            let (sa, nb, cc) = (str_operand(&a)?, num_operand(&b, 1000, W + 1)?, char_operand(&c, 2000)?);
+            let obs = guarded(|| match sa.ljust(&nb, Some(cc.clone())) {
+                Ok(r) => if !consistent(&r) { "ok <inconsistent array>".to_string() } else { decode_ljust(&r).map_or(format!("ok <undecodable {:?}>", r.get_elements().unwrap()), |t| format!("ok {}", t)) },
+                Err(e) => format!("err {}", err_name(&e)),
+            });
+            Some(compare_default(obs, expected))
+        }
         _ => None,
     }
 }
@@ -107,6 +221,7 @@ fn nontrivial(op: &str, args: &[&str]) -> bool {
     let ss: Vec<Vec<usize>> = match op {
         "broadcast_to" => vec![parse_arr_raw(args[0]).0, parse_usize_list(args[1])],
         "broadcast_arrays" => shapes_of(args[0]),
+        "h3" => vec![parse_arr_raw(args[0]).0, parse_arr_raw(args[1]).0, parse_arr_raw(args[2]).0],
         _ => vec![parse_arr_raw(args[0]).0, parse_arr_raw(args[1]).0],
     };
     let n = ss.iter().map(|s| s.len()).max().unwrap_or(0);
@@ -119,5 +234,5 @@ fn nontrivial(op: &str, args: &[&str]) -> bool {
 
 fn main() {
     harness_main(Spec { prop: "C03", gen, exec, nontrivial, hang_secs: 20,
-        rule: "exhaustive: all ordered pairs of shapes rank<=3 len<=3 (39^2) for broadcast, zip, broadcast_to (source,target) and 2-lists of broadcast_arrays; triples: 4000 sampled (quick) / all 39^3 (thorough); stretch targets up to rank 6; seeded random rank<=4 len<=5 mostly-compatible pairs/triples; zero-length shapes. Tag arrays (distinct integers; k-th operand offset 1000k). distinct = distinct case lines; non-trivial = at least one operand stretched along an axis of target length > 1" });
+        rule: "exhaustive: all ordered pairs of shapes rank<=3 len<=3 (39^2) for broadcast, zip, broadcast_to (source,target) and 2-lists of broadcast_arrays; triples: 4000 sampled (quick) / all 39^3 (thorough); stretch targets up to rank 6; seeded random rank<=4 len<=5 mostly-compatible pairs/triples; zero-length shapes (refused on aligned axes, accepted as added leading target axes). The crate-internal helpers broadcast_h2 / broadcast_h3 (ops h2 / h3) are observed through the public pure lifts `multiply` (string x count) and `ljust` (string x width x fill char) with per-position-recoverable operands, so the result text gives back the two / three stretched operands: all ordered pairs rank<=3 len<=3 for h2; triples: every ordered pair with a sampled third operand in a sampled position + 1500 sampled (quick) / all 39^3 (thorough); rank-0 operands; random rank<=4 len<=5. Tag arrays (distinct integers; k-th operand offset 1000k). distinct = distinct case lines; non-trivial = at least one operand stretched along an axis of target length > 1" });
 }
